@@ -151,26 +151,26 @@ package proxy
 //@   requires respHeader(w) != r.Header
 //@   assigns *
 //@   // C12: routing, access control and authentication precede any upstream contact
-//@   ensures upstreamCalls > old(upstreamCalls) ==> lastLookup != nil && accessTarget == lastLookup && accessAdmitted && authAccepted
-//@   ensures lastLookup == nil ==> upstreamCalls == old(upstreamCalls)
-//@   ensures lastLookup != nil && !accessAdmitted ==> upstreamCalls == old(upstreamCalls) && lastStatus == 403
-//@   ensures lastLookup != nil && accessAdmitted && !authAccepted ==> upstreamCalls == old(upstreamCalls) && lastStatus == 401
+//@   ensures @C12 upstreamCalls > old(upstreamCalls) ==> lastLookup != nil && accessTarget == lastLookup && accessAdmitted && authAccepted
+//@   ensures @C12 lastLookup == nil ==> upstreamCalls == old(upstreamCalls)
+//@   ensures @C12 lastLookup != nil && !accessAdmitted ==> upstreamCalls == old(upstreamCalls) && lastStatus == 403
+//@   ensures @C12 lastLookup != nil && accessAdmitted && !authAccepted ==> upstreamCalls == old(upstreamCalls) && lastStatus == 401
 //@   // C07: no route: the configured status (404 when out of range), no upstream
-//@   ensures lastLookup == nil ==> lastStatus == ((p.Config.NoRouteStatus < 100 || p.Config.NoRouteStatus > 999) ? 404 : p.Config.NoRouteStatus)
+//@   ensures @C07 lastLookup == nil ==> lastStatus == ((p.Config.NoRouteStatus < 100 || p.Config.NoRouteStatus > 999) ? 404 : p.Config.NoRouteStatus)
 //@   // C13: a redirect route is answered with its status and location, no upstream
-//@   ensures lastLookup != nil && accessAdmitted && authAccepted && lastLookup.RedirectCode != 0 && lastLookup.RedirectURL != nil ==> upstreamCalls == old(upstreamCalls) && lastStatus == lastLookup.RedirectCode && lastRedirect == urlString(lastLookup.RedirectURL)
+//@   ensures @C13 lastLookup != nil && accessAdmitted && authAccepted && lastLookup.RedirectCode != 0 && lastLookup.RedirectURL != nil ==> upstreamCalls == old(upstreamCalls) && lastStatus == lastLookup.RedirectCode && lastRedirect == urlString(lastLookup.RedirectURL)
 //@   // C08: the upstream learns the host the client asked for, even when the route rewrites Host
-//@   ensures upstreamCalls > old(upstreamCalls) && old(hget(r.Header, "X-Forwarded-Host")) == "" && old(r.Host) != "" && p.Config.RequestID == "" ==> upXFH == old(r.Host)
+//@   ensures @C08 upstreamCalls > old(upstreamCalls) && old(hget(r.Header, "X-Forwarded-Host")) == "" && old(r.Host) != "" && p.Config.RequestID == "" ==> upXFH == old(r.Host)
 //@   // C07: Host is replaced only when the route asks for it
-//@   ensures upstreamCalls > old(upstreamCalls) && lastLookup.Host == "" ==> upHost == old(r.Host)
-//@   ensures upstreamCalls > old(upstreamCalls) && lastLookup.Host != "" && lastLookup.Host != "dst" ==> upHost == lastLookup.Host
+//@   ensures @C07 upstreamCalls > old(upstreamCalls) && lastLookup.Host == "" ==> upHost == old(r.Host)
+//@   ensures @C07 upstreamCalls > old(upstreamCalls) && lastLookup.Host != "" && lastLookup.Host != "dst" ==> upHost == lastLookup.Host
 //@   // C07: for plain http the upstream url is the target's scheme and host, the path rewritten only by strip and prepend, the route's query in front
-//@   ensures upstreamCalls > old(upstreamCalls) && old(hget(r.Header, "Upgrade")) != "websocket" && old(hget(r.Header, "Upgrade")) != "Websocket" && p.Config.RequestID == "" ==> proxiedScheme == lastLookup.URL.Scheme && proxiedHost == lastLookup.URL.Host
-//@   ensures upstreamCalls > old(upstreamCalls) && old(hget(r.Header, "Upgrade")) != "websocket" && old(hget(r.Header, "Upgrade")) != "Websocket" && p.Config.RequestID == "" ==> proxiedPath == upstreamPath(lastLookup, old(r.URL.Path))
-//@   ensures upstreamCalls > old(upstreamCalls) && old(hget(r.Header, "Upgrade")) != "websocket" && old(hget(r.Header, "Upgrade")) != "Websocket" && p.Config.RequestID == "" ==> proxiedQuery == upstreamQuery(lastLookup.URL.RawQuery, old(r.URL.RawQuery))
+//@   ensures @C07 upstreamCalls > old(upstreamCalls) && old(hget(r.Header, "Upgrade")) != "websocket" && old(hget(r.Header, "Upgrade")) != "Websocket" && p.Config.RequestID == "" ==> proxiedScheme == lastLookup.URL.Scheme && proxiedHost == lastLookup.URL.Host
+//@   ensures @C07 upstreamCalls > old(upstreamCalls) && old(hget(r.Header, "Upgrade")) != "websocket" && old(hget(r.Header, "Upgrade")) != "Websocket" && p.Config.RequestID == "" ==> proxiedPath == upstreamPath(lastLookup, old(r.URL.Path))
+//@   ensures @C07 upstreamCalls > old(upstreamCalls) && old(hget(r.Header, "Upgrade")) != "websocket" && old(hget(r.Header, "Upgrade")) != "Websocket" && p.Config.RequestID == "" ==> proxiedQuery == upstreamQuery(lastLookup.URL.RawQuery, old(r.URL.RawQuery))
 //@
 //@   // C07: the client's percent-encoding is kept: when strip or prepend rewrite the path, the raw path is rewritten alike
-//@   ensures [rawpath-kept] upstreamCalls > old(upstreamCalls) && old(hget(r.Header, "Upgrade")) != "websocket" && old(hget(r.Header, "Upgrade")) != "Websocket" && p.Config.RequestID == "" && old(r.URL.RawPath) != "" && ((lastLookup.StripPath != "" && hasPrefix(old(r.URL.Path), lastLookup.StripPath)) || lastLookup.PrependPath != "") ==> proxiedRawPath == upstreamPath(lastLookup, old(r.URL.RawPath))
+//@   ensures [rawpath-kept] @C07 upstreamCalls > old(upstreamCalls) && old(hget(r.Header, "Upgrade")) != "websocket" && old(hget(r.Header, "Upgrade")) != "Websocket" && p.Config.RequestID == "" && old(r.URL.RawPath) != "" && ((lastLookup.StripPath != "" && hasPrefix(old(r.URL.Path), lastLookup.StripPath)) || lastLookup.PrependPath != "") ==> proxiedRawPath == upstreamPath(lastLookup, old(r.URL.RawPath))
 //@
 //@ // ---- C07: the response passes through the recording writer unchanged ------------------------------------
 //@ func (*responseWriter).WriteHeader
